@@ -250,6 +250,6 @@ def run_cases(cases):
         out.append({
             "lines": d["lines"], "tail": d["tail"], "cr": d["cr"], "sends": o["sends"],
             "closed_before": o["before_close"]["closed"], "closed_after": o["after_close"]["closed"],
-            "sends_at_close": o["after_close"]["sends_at_close"], "backend": backend,
+            "sends_at_close": o["after_close"]["sends_at_close"], "backend": backend, "late": o.get("late"),
         })
     return out
